@@ -13,6 +13,13 @@ const VECTORS: [&str; 3] = [
     "Ae2tdPwUPEZLs4HtbuNey7tK4hTKrwNwYtGqp7bDfCy2WdR3P6735W5Yfpe",
 ];
 
+/// the same three vectors as raw bytes: [82, d8 18, 58 LL, payload(LL), 1a, crc(4)]
+const VECTOR_HEX: [&str; 3] = [
+    "82d818584983581c7e9ee4a9527dea9091e2d580edd6716888c42f75d96276290f98fe0ba201581e581c0cdf39b531d1ac0963cbd183f63e43d895d16a9c567c95e1056e28bd02451a4170cb17001a53249b67",
+    "82d818584283581cd30392160a29d76ebc0a7e14fef145dde2ae2c983aaf5f632b67b815a101581e581cca3e553c9c63c534b988a9437ca105640410935a4e7380ca959381f0001a951a4859",
+    "82d818582183581cf11939f42338d59e21baa08645ac1f0038d5ee969f99fe98f402fe79a0001ac9d64e5b",
+];
+
 /// reference CRC-32/ISO-HDLC, independent of both the `crc` crate and the Coq model
 fn crc32(bs: &[u8]) -> u32 {
     let mut c = 0xffff_ffffu32;
@@ -244,6 +251,14 @@ fn corpus(cx: &Ctx) {
 
 fn main() {
     let args = args();
+    // a panic that escapes the guards comes from an unguarded implementation call
+    // (to_vec / to_base58 / constructors): report it as an observation, not a tool crash
+    if let Out::Panic(m) = guard_total(|| run(args)) {
+        emit_oracle_fail("panic/unguarded-call", &format!("an unguarded implementation call panicked: {}", m));
+    }
+}
+
+fn run(args: Args) {
     let cx = Ctx { oo: args.oracle_only, thorough: args.tier == "thorough" };
     let mut rng = Rng::new(args.seed);
 
@@ -251,13 +266,18 @@ fn main() {
 
     // ---- the three vectors of byron.rs: round trip, then EVERY single-bit corruption
     for (vi, v) in VECTORS.iter().enumerate() {
-        let a = match by_from_b58(v) { Out::Ok(a) => a, o => { emit_oracle_fail("vector", &format!("vector {} does not parse: {}", vi, show(&o))); continue; } };
+        // layout taken from the constant bytes, so the sweep does not depend on the parser under test
+        let vec = ::hex::decode(VECTOR_HEX[vi]).unwrap();
+        let plen = vec[4] as usize;
+        let pstart = 5;
+        let crc_len = 5;
+        let crc = u32::from_be_bytes([vec[vec.len() - 4], vec[vec.len() - 3], vec[vec.len() - 2], vec[vec.len() - 1]]);
+        let a = ByronAddress::new(&vec[pstart..pstart + plen], crc);
+        if b58(&vec) != *v { emit_oracle_fail("harness-base58", &format!("reference base58 of vector {} is {}", vi, b58(&vec))); }
+        let parsed = by_from_b58(v);
+        if !is(&parsed, &a) { emit_oracle_fail("vector", &format!("vector {} ({}) bytes={} parses to {}", vi, v, hex(&vec), show(&parsed))); }
         if a.to_base58() != *v { emit_oracle_fail("roundtrip/base58", &format!("vector {} re-encodes to {}", v, a.to_base58())); }
         oracle_roundtrip(&cx, None, &a);
-        let vec = a.to_vec();
-        let plen = a.payload.len();
-        let crc_len = cbor_uint(0, a.crc as u64, 0).len();
-        let pstart = vec.len() - crc_len - plen;
         emit_sample(&format!("vector {} = {} (payload bytes {}..{}, crc value bytes {}..{})", vi, hex(&vec), pstart, pstart + plen, vec.len() - crc_len + 1, vec.len()));
         for byte in 0..vec.len() { for bit in 0..8 {
             let mut c = vec.clone();
@@ -327,7 +347,7 @@ fn main() {
     }
 
     // ---- malformed: truncations, random bytes behind a Byron header, mutated heads
-    let base = match by_from_b58(VECTORS[2]) { Out::Ok(a) => a.to_vec(), _ => vec![] };
+    let base = ::hex::decode(VECTOR_HEX[2]).unwrap();
     for cut in 0..base.len() { parse_all(&cx, &base[..cut], "malformed-truncated", false, false); }
     for _ in 0..(args.n / 4).max(40) {
         let mut v = base.clone();
